@@ -1,7 +1,10 @@
 \* C20 trace validation: rounds of <= 3 racing initialisers and 3 observers with <= 3
 \* operations each, recorded from real threads on a fresh AmbientSlot per round and on the
 \* process-global shared and internal slots (one round per child process); initialisers use
-\* every public entry point of the round's kind of slot.
+\* every public entry point of the round's kind of slot and every form of building the configuration
+\* (Setup::emit_to / and_emit_to / both / map_emitter; Runtime::build / Setup::init_runtime / Runtime::default
+\* + with_*); what a Setup form hands back is used (Init::get / blocking_flush / flush_on_drop, the guard
+\* dropped normally or by an unwinding panic) by the winner and guarded by a loser.
 SPECIFICATION TSpec
 CONSTANTS
     Inits = {1, 2, 3}
@@ -9,10 +12,11 @@ CONSTANTS
     InitKinds = {"try_init_slot", "init_slot", "slot_init", "try_init", "init", "try_init_internal", "init_internal", "internal_slot_init"}
     ObsOps = {"is_enabled", "emit", "span", "flush", "probe"}
     MaxObs = 3
-    HandleOps = {"h_probe", "h_flush", "h_guard_drop"}
+    Forms = {"emit_to", "and_emit_to", "emit_to_and", "map_emitter", "build", "init_runtime", "default_with", "init_runtime_and"}
+    HandleOps = {"h_probe", "h_flush", "h_guard_drop", "h_guard_unwind"}
     MaxHandle = 3
     Design = "oncelock"
 INVARIANTS AtMostOneWinner ExactlyOneWinner LosersNeverReceive AllFiveTogether
-    EnabledMeansInstalled InertBefore Stable HandleIsInstalled
+    EnabledMeansInstalled InertBefore Stable HandleIsInstalled GuardInertWhenLost WholeEmitter
 POSTCONDITION TraceAccepted
 CHECK_DEADLOCK FALSE
